@@ -74,7 +74,7 @@ def run_one(seed, preset=None, tier="quick", want_case=False):
     cfgt = tape.sub("cfg")
     ft = tape.sub("fault")
     case = gen_case(tape, doc_knobs={"max_depth": 3, "max_sel": 4, "max_ops": 2, "max_frags": 3},
-                    schema_knobs={"max_objects": 4, "default_impl_pct": 10})
+                    schema_knobs={"max_objects": 4, "default_impl_pct": 10, "lag_pct": 25 if (seed % 3 == 0) else 0})
     base = make_plan(case, tape)
     plan = base
     faults = {}
